@@ -46,7 +46,7 @@ import traceback
 import unittest
 
 KINDS = ["return", "fail", "error", "skip", "xfail", "uxsuccess", "multi",
-         "multi_empty", "kbd", "sysexit"]
+         "multi_empty", "kbd", "sysexit", "multi_kbd", "nested_kbd"]
 SMALL = ["return", "fail", "skip", "kbd"]
 FLAVOURS = ["py26", "py27", "extended", "twisted", "testresult", "stream", "none"]
 DECOS = ["none", "tt_skip", "tt_skipIf", "tt_skipUnless_pass", "ut_skip",
@@ -115,6 +115,15 @@ def build(sc):
                                      exc_info_of(ValueError("m2")))
         if kind == "multi_empty":
             raise MultipleExceptions()
+        if kind in ("multi_kbd", "nested_kbd"):
+            # a KeyboardInterrupt travelling inside a MultipleExceptions (one level, or inside a nested group as composed
+            # fixtures produce them) is still a KeyboardInterrupt raised by user code
+            exc = KeyboardInterrupt(where)
+            obs["bases"].append(exc)
+            inner = MultipleExceptions(exc_info_of(ValueError("m1")), exc_info_of(exc))
+            if kind == "multi_kbd":
+                raise inner
+            raise MultipleExceptions(exc_info_of(case.failureException("m0")), exc_info_of(inner))
         exc = KeyboardInterrupt(where) if kind == "kbd" else SystemExit(3)
         obs["bases"].append(exc)
         raise exc
